@@ -104,8 +104,16 @@ func encParams(params map[string]interface{}) string {
 	sort.Strings(names)
 	var parts []string
 	for _, k := range names {
-		bv := influxql.BindValue(params[k])
-		parts = append(parts, fmt.Sprintf("%s/%s/%d/%s", encHex(k), encGoVal(params[k]), int(bv.TokenType()), encHex(bv.Value())))
+		// what the implementation binds the value to; a BindValue that panics or returns nil must
+		// not take the generator down: it is shipped as token -1 (the model answers bad-arg, the
+		// implementation's own outcome on the case is what gets reported)
+		tok, val := -1, ""
+		func() {
+			defer func() { _ = recover() }()
+			bv := influxql.BindValue(params[k])
+			tok, val = int(bv.TokenType()), bv.Value()
+		}()
+		parts = append(parts, fmt.Sprintf("%s/%s/%d/%s", encHex(k), encGoVal(params[k]), tok, encHex(val)))
 	}
 	return "p:" + strings.Join(parts, ";")
 }
